@@ -888,6 +888,10 @@ def gen_fit_kw(rng, nkeys=None, invalid=False, force_key=None):
                                         [float("nan"), 0]])
         elif r < 0.6:
             kw["segment"] = 0.5
+        elif r < 0.68:
+            # an axis that does not exist (the setting is stored, the fit
+            # is refused)
+            kw[rng.choice(["x_axis", "y_axis"])] = "no such column"
         elif r < 0.75:
             kw["model_key"] = "no_such_model"
         elif r < 0.9:
@@ -2193,6 +2197,17 @@ class CurveEngineC09:
                     kw, ts = rng.choice(pool)
                     ops.append({"op": "rate", "kw": copy.deepcopy(kw),
                                 "ts": ts})
+        if rng.random() < 0.12:
+            # a state reachable by a setting edit: an axis that does not
+            # exist is stored (the fit is refused), then the curve is rated
+            ax = rng.choice(["x_axis", "y_axis"])
+            pos = rng.randrange(1, len(ops) + 1)
+            kw, ts = rng.choice(pool)
+            blk = [{"op": "fit", "kw": {ax: "no such column"}}
+                   if rng.random() < 0.6 else
+                   {"op": "setfp", "key": ax, "value": "no such column"},
+                   {"op": "rate", "kw": copy.deepcopy(kw), "ts": ts}]
+            ops[pos:pos] = blk
         xproc = (index % 16 == 5)
         return {"config": {"curve": cfg, "swarm": swarm, "xproc": xproc},
                 "ops": ops}
@@ -2867,6 +2882,13 @@ def c10_apply(idnt, caller, op):
                 out["ret"] = [digest_array(np.asarray(r[0])),
                               digest_array(np.asarray(r[1]))]
                 caller.hold(op["slot"], (r[0], r[1]), returned=True)
+            elif kind == "get_rating_params":
+                # the reported rating parameters are returned objects
+                rp = idnt.get_rating_parameters()
+                fn = rp["Feature names"]
+                out["ret"] = enc(fn)
+                if isinstance(fn, list):
+                    caller.hold(op["slot"], fn, returned=True)
             elif kind == "get_rater_kw":
                 # the convenience constructor with the caller's own
                 # regressor keywords, then a rating with the defaults
@@ -2952,7 +2974,7 @@ def c10_gen_scenario(rng, sid):
     kind = rng.choice(["params", "params", "init", "init", "steps",
                        "options", "method_kws", "range_x", "names",
                        "force", "model", "samples", "trainset", "loadts",
-                       "weights", "raterkw"])
+                       "weights", "raterkw", "ratingparams"])
     s = f"{kind}{sid}"
     extra = {}
     if rng.random() < 0.4:
@@ -3132,6 +3154,19 @@ def c10_gen_scenario(rng, sid):
             "kind": "list_append",
             "value": rng.choice([c for c in CON_FEATURES
                                  if c not in names])}})
+        ops.append({"op": "rate", "args": {"regressor": "Decision Tree",
+                                           "names": {"slot": s}}})
+    elif kind == "ratingparams":
+        names = rng.sample(CON_FEATURES, 4)
+        ops.append({"op": "fit", "args": {}})
+        ops.append({"op": "rate", "args": {"regressor": "Decision Tree",
+                                           "names": names}})
+        ops.append({"op": "get_rating_params", "slot": s})
+        ops.append({"op": "mutate", "slot": s, "edit": rng.choice([
+            {"kind": "list_pop", "index": rng.randrange(4)},
+            {"kind": "list_append",
+             "value": rng.choice([c for c in CON_FEATURES
+                                  if c not in names])}])})
         ops.append({"op": "rate", "args": {"regressor": "Decision Tree",
                                            "names": {"slot": s}}})
     elif kind == "raterkw":
